@@ -7,26 +7,74 @@ The monitor keeps weakrefs to every ctype ever obtained and after each step
 checks over the live ones: same structural key <=> same object.  At quiescent
 points the backend's unique_cache (found through gc.get_objects()) must hold
 no dead entry and exactly one entry per live non-aggregate ctype.
+
+Audit extension: every obtained ctype is also compared with the structural key
+expected from the REQUESTED spec (the "same object => same C type" direction: a
+request must never be answered with the canonical object of another type);
+'near' steps request two types differing in exactly one component (length, also
+modulo 2**32, ellipsis, ABI, one argument, result, primitive, pointer depth) and
+demand two objects.  More input classes: all primitives with alternative
+spellings and qualifiers, non-default ABIs, zero-length items and lengths
+beyond 2**31 / 2**32, arbitrary result types, struct types created and dropped
+in mid-history, and more entry points: typedef names on in-line FFIs,
+out-of-line (generated, dlopen-style) modules with typedef lookups and type
+strings, derived ctypes (.item/.args/.result of a bigger type, the open array
+type a pointer ctype caches for slices, ffi.addressof()).
 """
 import sys, os, gc, weakref
 from vlib import core
 
-RULE = ("case = one history of 80 steps: request a random type spec (primitive, void, pointer, "
-        "array with/without length, function pointer with args/result/ellipsis, over shared "
-        "struct objects) through one of: backend constructors, type string on one of 3 in-line "
-        "FFIs, type string on a _cffi_backend.FFI(); drop a held reference; delete/recreate an "
-        "FFI; gc.collect(); rebuild a spec whose ctype died; distinct = (step kind, spec, path); "
-        "non-trivial = spec is not a bare primitive")
+RULE = ("case = one history of 80 steps: request a random type spec (any primitive in several "
+        "spellings, void, pointer, array with/without length incl. 0 and > 2**32, function pointer "
+        "with args/result/ellipsis/ABI, over struct objects that are replaced in mid-history) "
+        "through one of: backend constructors, type string or typedef name on one of 3 in-line "
+        "FFIs, type string on a _cffi_backend.FFI(), typedef name or type string on one of 2 "
+        "generated out-of-line modules, or derived from a bigger type (.item, .args, .result, "
+        "slice of a pointer, ffi.addressof); every result is compared with the key expected "
+        "from the spec; request a one-component neighbour of a type; drop a held reference; "
+        "delete/recreate an FFI or module; gc.collect(); rebuild a spec whose ctype died; "
+        "distinct = (step kind, spec, path); non-trivial = spec is not a bare primitive")
 ASSUMPTIONS = ["the structural key is computed only from public ctype attributes (kind, cname, item, length, args, result, ellipsis, abi)",
-               "unique_cache is identified as the only dict with bytes keys and weakref-to-CType values"]
+               "unique_cache is identified as the only dict with bytes keys and weakref-to-CType values",
+               "ctype.ellipsis is really 'no prepared cif' (ctypeget_ellipsis tests ct_extra), so it "
+               "reads True for a non-variadic function with a complex number passed or returned "
+               "by value; as the key is read from the public attributes, no signature here has a "
+               "complex by value (pointers to, arrays of and typedefs of complex are used)",
+               "qualifiers (const/volatile) are not part of a ctype: 'const T' must give the ctype of 'T'",
+               "ABI numbers other than FFI_DEFAULT_ABI are probed at child start: those that "
+               "new_function_type accepts are used (constructor path only)"]
 
 PRIMS = ['int', 'char', 'short', 'unsigned long', 'double', 'float', 'signed char', 'long long',
          '_Bool', 'wchar_t', 'unsigned int', 'size_t', 'int32_t', 'long']
+ALLPRIMS = ['_Bool', 'char', 'signed char', 'unsigned char', 'short', 'unsigned short', 'int',
+            'unsigned int', 'long', 'unsigned long', 'long long', 'unsigned long long', 'float',
+            'double', 'long double', 'wchar_t', 'int8_t', 'uint8_t', 'int16_t', 'uint16_t',
+            'int32_t', 'uint32_t', 'int64_t', 'uint64_t', 'intptr_t', 'uintptr_t', 'ptrdiff_t',
+            'size_t', 'ssize_t', 'int_least8_t', 'uint_least8_t', 'int_least16_t',
+            'uint_least16_t', 'int_least32_t', 'uint_least32_t', 'int_least64_t',
+            'uint_least64_t', 'int_fast8_t', 'uint_fast8_t', 'int_fast16_t', 'uint_fast16_t',
+            'int_fast32_t', 'uint_fast32_t', 'int_fast64_t', 'uint_fast64_t', 'intmax_t',
+            'uintmax_t', 'char16_t', 'char32_t', '_cffi_float_complex_t',
+            '_cffi_double_complex_t']
+# C spellings of a primitive for the two parsers (the first one is what render() prints)
+SPELL = {'int': ['int', 'signed', 'signed int'], 'unsigned int': ['unsigned int', 'unsigned'],
+         'long': ['long', 'long int', 'signed long', 'signed long int'],
+         'unsigned long': ['unsigned long', 'unsigned long int', 'long unsigned',
+                           'long unsigned int'],
+         'short': ['short', 'short int', 'signed short'],
+         'unsigned short': ['unsigned short', 'unsigned short int', 'short unsigned'],
+         'long long': ['long long', 'long long int', 'signed long long'],
+         'unsigned long long': ['unsigned long long', 'unsigned long long int',
+                                'long long unsigned'],
+         '_cffi_float_complex_t': ['float _Complex'],
+         '_cffi_double_complex_t': ['double _Complex']}
+BIGLEN = [2 ** 31 - 1, 2 ** 31, 2 ** 32, 2 ** 32 + 1, 2 ** 32 + 3, 2 ** 32 + 17, 2 ** 40 + 100]
+ABI = {'default': None, 'noell': [], 'ell': []}      # filled in by child_setup()
 
 
 def generate(ctx):
     rng = ctx.rng('gen')
-    nh = ctx.scale(300, 5000)
+    nh = ctx.scale(300, 3000)
     per = 40
     seeds = [rng.getrandbits(48) for _ in range(nh)]
     return None, [{'seeds': seeds[i:i + per], 'steps': 80} for i in range(0, nh, per)]
@@ -34,7 +82,19 @@ def generate(ctx):
 
 def child_setup(setup, wd):
     import _cffi_backend as B
-    return {'B': B}
+    ABI['default'] = B.FFI_DEFAULT_ABI
+    i = B.new_primitive_type('int')
+    for ell, name in ((False, 'noell'), (True, 'ell')):
+        ABI[name] = []
+        for abi in range(0, 6):
+            if abi == B.FFI_DEFAULT_ABI:
+                continue
+            try:
+                B.new_function_type((i,), i, ell, abi)
+                ABI[name].append(abi)
+            except Exception:
+                pass
+    return {'B': B, 'wd': wd}
 
 
 def rand_spec(rnd, depth=0, allow_struct=True, role='top'):
@@ -42,7 +102,7 @@ def rand_spec(rnd, depth=0, allow_struct=True, role='top'):
     if depth >= 3 or r < 0.3:
         if allow_struct and rnd.random() < 0.15 and role != 'arg0':
             return ('struct', rnd.randrange(2))
-        return ('prim', rnd.choice(PRIMS))
+        return ('prim', rnd.choice(PRIMS if rnd.random() < 0.5 else ALLPRIMS))
     if r < 0.6:
         inner = rand_spec(rnd, depth + 1, allow_struct, 'pointee')
         if rnd.random() < 0.1:
@@ -54,7 +114,9 @@ def rand_spec(rnd, depth=0, allow_struct=True, role='top'):
             item = ('prim', 'int')
         if item[0] in ('void', 'func', 'struct'):   # the harness structs are opaque
             item = ('ptr', item)
-        n = rnd.choice([None, 0, 1, 2, 3, 17, 100]) if role != 'item' else rnd.choice([1, 2, 5])
+        n = rnd.choice([None, 0, 1, 2, 3, 17, 100]) if role != 'item' else rnd.choice([0, 1, 2, 5])
+        if role != 'item' and rnd.random() < 0.12:
+            n = rnd.choice(BIGLEN)
         return ('array', item, n)
     # function pointer
     nargs = rnd.randrange(0, 3)
@@ -65,11 +127,23 @@ def rand_spec(rnd, depth=0, allow_struct=True, role='top'):
             a = ('ptr', a if a[0] == 'struct' else a[1])
         args.append(a)
     res = rnd.choice([('void',), ('prim', rnd.choice(PRIMS)), ('ptr', ('prim', 'char'))])
+    if rnd.random() < 0.3:
+        res = rand_spec(rnd, depth + 2, allow_struct, 'arg')
+        if res[0] in ('array', 'struct'):
+            res = ('ptr', res if res[0] == 'struct' else res[1])
+    # see ASSUMPTIONS: no complex number by value in a signature
+    args = [('ptr', a) if is_complex(a) else a for a in args]
+    if is_complex(res):
+        res = ('ptr', res)
     ell = bool(nargs) and rnd.random() < 0.2
-    return ('ptr', ('func', tuple(args), res, ell))
+    abi = None
+    cand = ABI['ell' if ell else 'noell']
+    if cand and allow_struct and rnd.random() < 0.15:      # (allow_struct: ctor-only specs allowed)
+        abi = rnd.choice(cand)
+    return ('ptr', ('func', tuple(args), res, ell, abi))
 
 
-def has_struct(s):
+def has_struct(s):     # (kept for keys of the samples)
     if s[0] == 'struct':
         return True
     if s[0] in ('ptr', 'array'):
@@ -79,24 +153,131 @@ def has_struct(s):
     return False
 
 
-def render(s, inner=''):
+def ctor_only(s):
+    """no C text for it: refers to a harness struct object or to a non-default ABI"""
+    if s[0] == 'struct':
+        return True
+    if s[0] in ('ptr', 'array'):
+        return ctor_only(s[1])
+    if s[0] == 'func':
+        return s[4] is not None or any(ctor_only(a) for a in s[1]) or ctor_only(s[2])
+    return False
+
+
+def render(s, inner='', rnd=None):
+    """C text of a spec; with rnd: a random equivalent spelling (other primitive spelling,
+    qualifiers, which are not part of a ctype)"""
     k = s[0]
     if k == 'prim':
-        return (s[1] + ' ' + inner).rstrip()
+        name = SPELL.get(s[1], [s[1]])[0]
+        if rnd is not None:
+            name = rnd.choice(SPELL.get(s[1], [s[1]]))
+            q = rnd.random()
+            if q < 0.08:
+                name = 'const ' + name
+            elif q < 0.12:
+                name = name + ' const'
+            elif q < 0.15:
+                name = 'volatile ' + name
+        return (name + ' ' + inner).rstrip()
     if k == 'void':
         return ('void ' + inner).rstrip()
     if k == 'ptr':
         if s[1][0] in ('array', 'func'):
-            return render(s[1], '(*%s)' % inner)
-        return render(s[1], '*' + inner)
+            return render(s[1], '(*%s)' % inner, rnd)
+        if rnd is not None and inner and not inner.startswith('(') and rnd.random() < 0.06:
+            inner = 'const ' + inner if inner[0].isalpha() else 'const' + inner
+        elif rnd is not None and not inner and rnd.random() < 0.06:
+            inner = 'const'
+        return render(s[1], '*' + inner, rnd)
     if k == 'array':
-        return render(s[1], '%s[%s]' % (inner, '' if s[2] is None else s[2]))
+        return render(s[1], '%s[%s]' % (inner, '' if s[2] is None else s[2]), rnd)
     if k == 'func':
-        args = [render(a) for a in s[1]]
+        args = [render(a, '', rnd) for a in s[1]]
         if s[3]:
             args.append('...')
-        return render(s[2], '%s(%s)' % (inner, ', '.join(args) or 'void'))
+        return render(s[2], '%s(%s)' % (inner, ', '.join(args) or 'void'), rnd)
     raise ValueError(s)
+
+
+def is_complex(s):
+    return s[0] == 'prim' and 'complex' in s[1]
+
+
+def maxlen(s):
+    """largest array length anywhere in a spec"""
+    if s[0] == 'array':
+        return max(s[2] or 0, maxlen(s[1]))
+    if s[0] == 'ptr':
+        return maxlen(s[1])
+    if s[0] == 'func':
+        return max([maxlen(a) for a in s[1]] + [maxlen(s[2])])
+    return 0
+
+
+def neighbour(rnd, s, allow_ctor_only):
+    """a spec that differs from s in exactly one component (or None)"""
+    k = s[0]
+    if k == 'prim':
+        return ('prim', rnd.choice([p for p in ALLPRIMS if p != s[1]]))
+    if k == 'void':
+        return ('prim', 'char')
+    if k == 'struct':
+        return ('struct', 1 - s[1])
+    if k == 'ptr':
+        r = rnd.random()
+        if s[1][0] == 'func':
+            f = neighbour(rnd, s[1], allow_ctor_only)
+            return None if f is None else ('ptr', f)
+        if r < 0.3:
+            return ('ptr', s)                      # one more level
+        if r < 0.4 and s[1][0] not in ('void',):
+            return s[1]                            # one level less
+        n = neighbour(rnd, s[1], allow_ctor_only)
+        if n is None or n[0] == 'func':
+            return None
+        return ('ptr', n)
+    if k == 'array':
+        if rnd.random() < 0.7:
+            n = s[2]
+            base = 0 if n is None else n
+            cand = [base + 1, base + 2 ** 32, base + 2 ** 40, base % (2 ** 32), base % (2 ** 31),
+                    None, 0]
+            cand = [c for c in cand if c != n and (c is None or c < 2 ** 44)]
+            return ('array', s[1], rnd.choice(cand))
+        it = neighbour(rnd, s[1], allow_ctor_only)
+        if it is None or it[0] in ('void', 'struct', 'func') or (it[0] == 'array' and it[2] is None):
+            return None
+        return ('array', it, s[2])
+    if k == 'func':
+        args, res, ell, abi = s[1], s[2], s[3], s[4]
+        what = rnd.choice(['ell', 'abi', 'droparg', 'addarg', 'arg', 'res'])
+        if what == 'ell' and args:
+            if abi is not None and abi not in ABI['noell' if ell else 'ell']:
+                return None
+            return ('func', args, res, not ell, abi)
+        if what == 'abi' and allow_ctor_only:
+            cand = [a for a in ABI['ell' if ell else 'noell'] + [None] if a != abi]
+            if cand:
+                return ('func', args, res, ell, rnd.choice(cand))
+        if what == 'droparg' and len(args) > (1 if ell else 0):
+            return ('func', args[:-1], res, ell, abi)
+        if what == 'addarg':
+            return ('func', args + (rnd.choice([('prim', 'int'), ('ptr', ('void',)), args[-1]
+                                                if args else ('prim', 'long')]),), res, ell, abi)
+        if what == 'arg' and args:
+            i = rnd.randrange(len(args))
+            a = neighbour(rnd, args[i], allow_ctor_only)
+            if a is None or a[0] in ('void', 'struct', 'array', 'func') or is_complex(a):
+                return None
+            return ('func', args[:i] + (a,) + args[i + 1:], res, ell, abi)
+        if what == 'res':
+            r = neighbour(rnd, res, allow_ctor_only) if res[0] != 'void' else ('prim', 'int')
+            if r is None or r[0] in ('struct', 'array', 'func') or is_complex(r):
+                return None
+            return ('func', args, r, ell, abi)
+        return None
+    return None
 
 
 class H(object):
@@ -105,6 +286,9 @@ class H(object):
         self.structs = [B.new_struct_type('struct hs0'), B.new_struct_type('struct hs1')]
         self.ffis = [None, None, None]
         self.cffis = [None]
+        self.mods = [None, None]      # generated out-of-line modules: (ffi, {text: typedef name})
+        self.modsrc = [None, None]    # their last source (re-executed = the module loaded again)
+        self.ntd = 0
         self.held = []          # strong refs: (spec, ctype)
         self.seen = []          # (weakref, spec)
         self.live = {}          # id -> (weakref, structural key)
@@ -142,7 +326,30 @@ class H(object):
                                                  self.rnd.choice([None, 0, 3, 1002])))
                 else:
                     args.append(self.build(a))
+            if s[4] is not None:
+                self.rep.stat('ctor_function_with_non_default_abi')
+                return B.new_function_type(tuple(args), self.build(s[2]), s[3], s[4])
             return B.new_function_type(tuple(args), self.build(s[2]), s[3])
+        raise ValueError(s)
+
+    def want(self, s):
+        """the structural key the ctype of spec s must have"""
+        k = s[0]
+        if k == 'prim':
+            return ('prim', s[1])
+        if k == 'void':
+            return ('void',)
+        if k == 'struct':
+            return ('agg', id(self.structs[s[1]]))
+        if k == 'ptr':
+            if s[1][0] == 'func':
+                return self.want(s[1])
+            return ('ptr', self.want(s[1]))
+        if k == 'array':
+            return ('array', self.want(s[1]), s[2])
+        if k == 'func':
+            return ('func', tuple(self.want(a) for a in s[1]), self.want(s[2]), s[3],
+                    ABI['default'] if s[4] is None else s[4])
         raise ValueError(s)
 
     def key(self, ct):
@@ -163,19 +370,135 @@ class H(object):
                     ct.ellipsis, ct.abi)
         return ('other', k, ct.cname)
 
+    def paths_for(self, s, base_only=False):
+        """entry points through which spec s can be asked for"""
+        if ctor_only(s):
+            base = ['ctor']
+        else:
+            base = ['ctor', 'inline0', 'inline1', 'inline2', 'cparser', 'module0', 'module1']
+        if base_only:
+            return base
+        paths = list(base)
+        if not ctor_only(s):
+            paths += ['typedef0', 'typedef1']
+        k = s[0]
+        paths.append('item_of_ptr')
+        if k in ('prim', 'ptr') or (k == 'array' and s[2] is not None):
+            paths.append('item_of_array')
+        if k in ('prim', 'ptr') and not is_complex(s):
+            paths += ['arg_of_func', 'result_of_func']
+        if k == 'void':
+            paths.append('result_of_func')
+        if k == 'array' and s[2] is None:
+            paths += ['slice_of_ptr', 'slice_of_ptr']
+        if k == 'ptr' and s[1][0] == 'array' and not ctor_only(s) and maxlen(s) <= 100 and \
+                s[1][1][0] != 'array':
+            paths.append('addressof')
+        return paths
+
     def request(self, s, path):
+        ct = self.request1(s, path)
+        self.rep.stat('got_via_' + path.rstrip('012'))
+        w = self.want(s)
+        if self.key(ct) != w:
+            self.bad('ctype-does-not-describe-requested-type', 'asked through %s for %s (key %r) '
+                     'and got %r with key %r' % (path, render(s) if not has_struct(s) else repr(s),
+                                                 w, ct, self.key(ct)))
+        return ct
+
+    def make_module(self, i):
+        """a generated out-of-line (dlopen-style) module, built by the real recompiler"""
+        import io
+        from cffi import FFI, recompiler
+        rnd = self.rnd
+        if self.modsrc[i] is not None and rnd.random() < 0.5:
+            src, tds, specs = self.modsrc[i]
+            self.rep.stat('module_loaded_again_from_same_source')
+        else:
+            # (the recompiler cannot emit array lengths >= 2**31 into a dlopen-style module)
+            specs = [h[0] for h in self.held if not ctor_only(h[0]) and h[0][0] != 'void' and
+                     maxlen(h[0]) < 2 ** 31]
+            rnd.shuffle(specs)
+            specs = specs[:3]
+            while len(specs) < 6:
+                t = rand_spec(rnd, 0, False)
+                if t[0] != 'void' and maxlen(t) < 2 ** 31:
+                    specs.append(t)
+            tds = {}
+            lines = []
+            for j, t in enumerate(specs):
+                if render(t) not in tds:
+                    tds[render(t)] = 'mtd%d' % j
+                    lines.append('typedef %s;' % render(t, 'mtd%d' % j))
+            f = FFI()
+            f.cdef('\n'.join(lines))
+            f.set_source('c27_genmod', None)
+            out = io.StringIO()
+            recompiler.make_py_source(f, 'c27_genmod', out)
+            src = out.getvalue()
+            self.modsrc[i] = (src, tds, specs)
+            self.rep.stat('modules_generated')
+            self.rep.stat('module_typedefs', len(tds))
+        ns = {}
+        exec(compile(src, 'c27_genmod.py', 'exec'), ns)
+        self.mods[i] = (ns['ffi'], tds, specs)
+
+    def request1(self, s, path):
         from cffi import FFI
+        B, rnd = self.B, self.rnd
         if path == 'ctor':
             return self.build(s)
-        text = render(s)
-        if path.startswith('inline'):
+        if path.startswith(('inline', 'typedef')):
             i = int(path[-1])
             if self.ffis[i] is None:
                 self.ffis[i] = FFI()
-            return self.ffis[i].typeof(text)
-        if self.cffis[0] is None:
-            self.cffis[0] = self.B.FFI()
-        return self.cffis[0].typeof(text)
+            if path.startswith('typedef'):
+                self.ntd += 1
+                name = 'td%d' % self.ntd
+                self.ffis[i].cdef('typedef %s;' % render(s, name, rnd))
+                if rnd.random() < 0.3:
+                    return self.ffis[i].typeof(name + '*').item
+                return self.ffis[i].typeof(name)
+            return self.ffis[i].typeof(render(s, '', rnd))
+        if path == 'cparser':
+            if self.cffis[0] is None:
+                self.cffis[0] = B.FFI()
+            return self.cffis[0].typeof(render(s, '', rnd))
+        if path.startswith('module'):
+            i = int(path[-1])
+            if self.mods[i] is None:
+                self.make_module(i)
+            mffi, tds = self.mods[i][:2]
+            if render(s) in tds and rnd.random() < 0.75:
+                self.rep.stat('module_typedef_lookups')
+                return mffi.typeof(tds[render(s)])
+            self.rep.stat('module_typeof_strings')
+            return mffi.typeof(render(s, '', rnd))
+        # derived: ask for a bigger type through a base path and take the part
+        bp = rnd.choice(self.paths_for(s, True))
+        if path == 'item_of_ptr':
+            return self.request(('ptr', s), bp).item
+        if path == 'item_of_array':
+            return self.request(('array', s, rnd.choice([None, 0, 4])), bp).item
+        if path == 'arg_of_func':
+            more = rnd.choice([(), (('prim', 'int'),)])
+            return self.request(('ptr', ('func', more + (s,), ('void',), False, None)),
+                                bp).args[len(more)]
+        if path == 'result_of_func':
+            return self.request(('ptr', ('func', (), s, False, None)), bp).result
+        if path == 'slice_of_ptr':
+            # the open array type that a pointer ctype caches for its slices
+            p = self.request(('ptr', s[1]), bp)
+            return B.typeof(B.cast(p, 4096)[0:1])
+        if path == 'addressof':
+            f = self.ffis[0]
+            if f is None:
+                f = self.ffis[0] = FFI()
+            arr = s[1]
+            text = render(arr, '', rnd)
+            a = f.new(text, 1) if arr[2] is None else f.new(text)
+            return f.typeof(f.addressof(a))
+        raise ValueError(path)
 
     def note(self, ct, s):
         self.seen.append((weakref.ref(ct), s))
@@ -200,7 +523,9 @@ class H(object):
     def step(self):
         rnd = self.rnd
         op = rnd.choice(['request', 'request', 'request', 'pair', 'drop', 'drop', 'collect',
-                         'delffi', 'rebuild', 'revive'])
+                         'delffi', 'rebuild', 'revive', 'near', 'near', 'newstruct'])
+        if op == 'newstruct' and rnd.random() < 0.5:
+            op = 'request'
         if op == 'revive' and rnd.random() < 0.5:
             op = 'request'
         if op == 'revive':
@@ -211,9 +536,9 @@ class H(object):
                 inner = ('prim', 'int')
             s = rnd.choice([('array', inner, rnd.randrange(1000, 100000)),
                             ('ptr', ('array', inner, rnd.randrange(1000, 100000))),
-                            ('ptr', ('func', [('ptr', ('array', inner,
-                                                        rnd.randrange(1000, 100000)))],
-                                     ('prim', 'int'), False))])
+                            ('ptr', ('func', (('ptr', ('array', inner,
+                                                        rnd.randrange(1000, 100000))),),
+                                     ('prim', 'int'), False, None))])
             paths = ['ctor', 'inline0', 'cparser']
             p0, p1, p2 = rnd.choice(paths), rnd.choice(paths), rnd.choice(paths)
             revived = []
@@ -242,12 +567,62 @@ class H(object):
             self.held.append((s, again))
             del wr
             return (op, p0, p1, p2), s
+        if op == 'newstruct':
+            # the struct object of a slot is replaced: the old one dies with its last derived
+            # type, and its address (part of the keys in unique_cache) can be reused
+            i = rnd.randrange(2)
+            self.structs[i] = self.B.new_struct_type(rnd.choice(['struct hs0', 'struct hs1',
+                                                                 'struct hs%d' % rnd.randrange(9)]))
+            return (op, i), None
+        if op == 'near':
+            # two types that differ in exactly one component must be two objects
+            pool = [h[0] for h in self.held if h[0][0] != 'prim']
+            s = rnd.choice(pool) if pool and rnd.random() < 0.5 else rand_spec(rnd)
+            t = neighbour(rnd, s, True)
+            if t is None or t == s or self.want(t) == self.want(s):
+                return ('near-skip',), None
+            p1, p2 = rnd.choice(self.paths_for(s)), rnd.choice(self.paths_for(t))
+            if rnd.random() < 0.5:
+                p2 = p1 if p1 in self.paths_for(t) else p2
+            try:
+                c1 = self.request(s, p1)
+                c2 = self.request(t, p2)
+            except OverflowError:
+                self.rep.stat('near_total_size_overflow')
+                return ('near-skip', 'overflow'), None
+            self.note(c1, s)
+            self.note(c2, t)
+            self.rep.stat('near_pairs_compared')
+            if s[0] == 'array' and t[0] == 'array' and s[1] == t[1] and None not in (s[2], t[2]) \
+                    and (s[2] - t[2]) % 2 ** 31 == 0:
+                self.rep.stat('near_lengths_equal_mod_2_31')
+            if s[0] == 'ptr' and s[1][0] == 'func' and t[0] == 'ptr' and t[1][0] == 'func':
+                if s[1][4] != t[1][4]:
+                    self.rep.stat('near_functions_differ_in_abi')
+                elif s[1][3] != t[1][3]:
+                    self.rep.stat('near_functions_differ_in_ellipsis')
+            if c1 is c2:
+                self.bad('different-types-same-object', '%s through %s and %s through %s are the '
+                         'same object %r' % (render(s) if not has_struct(s) else repr(s), p1,
+                                             render(t) if not has_struct(t) else repr(t), p2, c1))
+            if rnd.random() < 0.5:
+                self.held.append((s, c1))
+            if rnd.random() < 0.5:
+                self.held.append((t, c2))
+            return (op, render(s) if not has_struct(s) else repr(s),
+                    render(t) if not has_struct(t) else repr(t), p1, p2), t
         if op in ('request', 'pair'):
             s = rand_spec(rnd)
-            paths = ['ctor', 'inline0', 'inline1', 'inline2', 'cparser']
-            if has_struct(s):
-                paths = ['ctor']
+            paths = self.paths_for(s)
             p1 = rnd.choice(paths)
+            livemods = [i for i in (0, 1) if self.mods[i] is not None]
+            if livemods and rnd.random() < 0.15:
+                # a type the generated module has a typedef for (realized once per module
+                # object and then kept in the module's type table)
+                i = rnd.choice(livemods)
+                s = rnd.choice(self.mods[i][2])
+                paths = self.paths_for(s)
+                p1 = 'module%d' % i
             c1 = self.request(s, p1)
             self.note(c1, s)
             key = (op, render(s) if not has_struct(s) else repr(s), p1)
@@ -276,20 +651,22 @@ class H(object):
             self.check_cache('gc.collect()')
             return (op,), None
         if op == 'delffi':
-            i = rnd.randrange(4)
+            i = rnd.randrange(6)
             if i < 3:
                 self.ffis[i] = None
-            else:
+            elif i == 3:
                 self.cffis[0] = None
+            else:
+                self.mods[i - 4] = None
             return (op, i), None
         if op == 'rebuild':
             # find a spec whose ctype died, rebuild it through two paths
-            dead = [s for r, s in self.seen if r() is None and not has_struct(s) and s[0] != 'prim']
+            dead = [s for r, s in self.seen if r() is None and not ctor_only(s) and s[0] != 'prim']
             if not dead:
                 return ('rebuild-skip',), None
             s = rnd.choice(dead)
-            p1, p2 = rnd.choice(['ctor', 'inline0', 'cparser']), rnd.choice(['ctor', 'inline1',
-                                                                              'cparser'])
+            p1 = rnd.choice(['ctor', 'inline0', 'cparser', 'module0'])
+            p2 = rnd.choice([p for p in self.paths_for(s) if p not in ('inline0', 'typedef0')])
             c1 = self.request(s, p1)
             c2 = self.request(s, p2)
             self.note(c1, s)
@@ -359,6 +736,7 @@ def child_case(st, case):
     for seed in case['seeds']:
         rnd = random.Random(seed)
         h = H(st['B'], rnd, rep, seed)
+        h.wd = st.get('wd')
         rep.stat('histories')
         try:
             for _ in range(case['steps']):
@@ -371,6 +749,7 @@ def child_case(st, case):
             h.held = []
             h.ffis = []
             h.cffis = []
+            h.mods = []
             gc.collect()
             h.check_cache('end of history')
         except Exception:
